@@ -37,7 +37,11 @@ std::string describeException(const std::exception& e);
 // ---- allocation fault injection --------------------------------------------------------------------
 static std::atomic<long> g_allocCountdown{-1};   // < 0: disabled; fails when it reaches 0
 static std::atomic<long> g_allocSeen{0};
+// largest single request seen since the last reset (memory "out of proportion to the size of the input", C02)
+static std::atomic<std::size_t> g_maxAllocRequest{0};
+namespace vh { void allocWatchReset() { g_maxAllocRequest = 0; } std::size_t allocWatchMax() { return g_maxAllocRequest.load(); } }
 static void* fi_alloc(std::size_t n) {
+	if (n > g_maxAllocRequest.load(std::memory_order_relaxed)) g_maxAllocRequest.store(n, std::memory_order_relaxed);
 	if (g_allocCountdown.load() >= 0) {
 		++g_allocSeen;
 		if (g_allocCountdown.fetch_sub(1) == 0) throw std::bad_alloc();
